@@ -132,6 +132,22 @@ func c18Conf(c *fw.Case) (o fw.Outcome) {
 		sb.WriteString(l + "\n")
 	}
 	y = sb.String()
+	// file-level variants every YAML reader must treat alike: CRLF line endings, a UTF-8 byte order mark, a document
+	// start marker, trailing blanks
+	switch r.Intn(8) {
+	case 0:
+		y = strings.ReplaceAll(y, "\n", "\r\n")
+		o.Tag("file:crlf")
+	case 1:
+		y = "\xef\xbb\xbf" + y
+		o.Tag("file:bom")
+	case 2:
+		y = "---\n" + y
+		o.Tag("file:document-start")
+	case 3:
+		y = strings.ReplaceAll(y, "\n", "   \n")
+		o.Tag("file:trailing-blanks")
+	}
 	dir, err := os.MkdirTemp(workDir(), "conf")
 	if err != nil {
 		o.Inconcl("%v", err)
